@@ -416,6 +416,9 @@ def selftest_trace_rejects(ctx, moddir, module, cfg, tracefile, mutate, depthfir
     with open(tracefile) as f:
         lines = [l for l in f.read().splitlines() if l.strip()]
     mlines, desc = mutate(lines)
+    if desc == 'none':
+        ctx.cov.setdefault('selftests', []).append(dict(mutation='no line of the trace fits the mutation', rejected=None))
+        return None
     tf = ctx.tmp('trace_selftest.ndjson')
     with open(tf, 'w') as f:
         f.write('\n'.join(mlines) + '\n')
